@@ -709,6 +709,7 @@ func (r *replicateChannelManager) startReadChannel(ctx context.Context, sourceIn
 	channelHandler, ok := r.channelHandlerMap[channelMappingKey]
 	if !ok {
 		var err error
+		verifYieldIfFree(&r.channelLock, "channel:init", sourceInfo.PChannel, sourceInfo.CollectionID)
 		channelHandler, err = initReplicateChannelHandler(r.getCtx(), sourceInfo, targetInfo, r.targetClient, r.metaOp, r.apiEventChan, &model.HandlerOpts{
 			MessageBufferSize: r.messageBufferSize,
 			TTInterval:        r.ttInterval,
